@@ -23,6 +23,9 @@ R14.f  the instance's derived views are not accumulated with a numpy ufunc
 R14.e  ``Schedule.to_dict`` emits each machine's job ids in list order: no
        reordering operator other than a stable sort on start_time[, end_time]
        (the identity on dispatcher-built lists).
+R14.g  no function of these modules modifies the object of a mutable default
+       argument (directly, through a local alias, or with ``+=``): the result
+       of a call must not depend on earlier calls.
 """
 
 from __future__ import annotations
@@ -48,6 +51,7 @@ MANIFEST = {
         "order; Schedule.to_dict emits each machine list in list order (no "
         "reordering). Not decided: the values of the derived views and round-trip "
         "equality."
+        " Also decided: no function of these modules accumulates into a mutable default argument."
     ),
     "note": "Transformation.__call__ renaming an instance that apply returned unchanged is reported as an observation (outside C14's list of actors). Alias model as in C05.",
     "technique": "typed who-may-write sweep with interprocedural alias analysis + dictionary key agreement + loop progress (must-dispatch-or-raise) path check",
@@ -80,6 +84,9 @@ def _unwrap(o):
 
 def run(ctx):
     chk, repo = ctx.chk, ctx.repo
+    from .common import check_mutable_defaults
+
+    check_mutable_defaults(ctx, "R14.g", ("job_shop_lib._schedule", "job_shop_lib._job_shop_instance", "job_shop_lib._operation", "job_shop_lib._scheduled_operation", "job_shop_lib.benchmarking"), "the data-structure / serialisation")
     for rid, txt in (
         ("R14.a", "no write to an instance/operation attribute, instance.jobs, operation.machines or a cached derived view outside the instance's own constructors"),
         ("R14.f", "no derived view of the instance is accumulated with `a[ids] = f(a[ids], ...)` over an id list that can contain repeats"),
@@ -442,7 +449,10 @@ def _feasible(evs) -> bool:
         elif e.kind == "return" and e.frame.call_node is not None:
             v = e.data.get("value")
             cnt = _counter_test(v, fid, env)
-            if cnt is not None:
+            if isinstance(v, ast.Name) and env.get((fid, v.id)) in ("zero", "pos"):
+                # the counter itself is returned: the caller may compare it
+                last_ret[id(e.frame.call_node)] = env[(fid, v.id)]
+            elif cnt is not None:
                 last_ret[id(e.frame.call_node)] = cnt
             elif isinstance(v, ast.Constant) and isinstance(v.value, bool):
                 last_ret[id(e.frame.call_node)] = v.value
@@ -471,7 +481,8 @@ def _feasible(evs) -> bool:
                 if isinstance(x, ast.Name) and isinstance(env.get((fid, x.id)), bool):
                     return env[(fid, x.id)]
                 if isinstance(x, ast.Call) and id(x) in last_ret:
-                    return last_ret[id(x)]  # the (inlined) call's constant result on this path
+                    r = last_ret[id(x)]  # the (inlined) call's constant result on this path
+                    return (r == "pos") if r in ("zero", "pos") else r
                 return _counter_test(x, fid, env)
 
             known = known_of(t)
